@@ -3,7 +3,8 @@ package stree
 // Bounded stand-in for the first clause of C02 (DESIGN.md §0.2/§0.3): for balance factors 0..999 and operation
 // histories (sorted, reversed, zig-zag and seeded random insertions, interleaved with removals and Clear), after every
 // single operation no key lies deeper below the root (edges) than log base 2000/(1000+beta) of P, plus one, P being the
-// largest Len since the tree was created, cleared or last empty. The second clause of C02 (New builds a tree of minimum
+// largest Len since the tree was created, cleared or last empty; for beta 990, 998 and 999 additionally a sorted run of
+// 30000 insertions (bound independent). The second clause of C02 (New builds a tree of minimum
 // height) is proved deductively (stree.extract); it is re-checked here on the side.
 
 import (
@@ -123,6 +124,22 @@ func TestGovcBoundedHeight(t *testing.T) {
 			cases++
 			if err := r.check(what); err != nil {
 				t.Fatal(err)
+			}
+		}
+	}
+	// balance factors next to 1000 only show a missing rebalance on very long sorted runs (the bound is about
+	// 2000 ln P there): 30000 ascending keys, depth measured every 500 insertions (measuring costs O(n))
+	for _, beta := range []int{999, 998, 990} {
+		r := &govcHeightRun{t: New[int](beta, cmp), beta: beta}
+		for i := 0; i < 30000; i++ {
+			r.t.Add(i)
+			if i%500 == 499 {
+				cases++
+				if err := r.check(fmt.Sprintf("long ascending Add #%d", i)); err != nil {
+					t.Fatal(err)
+				}
+			} else {
+				r.peak = max(r.peak, r.t.Len())
 			}
 		}
 	}
